@@ -7,8 +7,14 @@ import (
 
 // C15 / C05-init / C06-P0 (v2): the constructor.
 
+// gosym: mode=int
+func VerifC15_new() { c15New(vChoose("divider", 3)) } // arbitrary (possibly faulty) stub, Fair, arbitrary sum-preserving stub: exact
+
+// Rate with uninterpreted float arithmetic (whatever values its float expressions take): over-approximating
 // gosym: mode=int fp=uf
-func VerifC15_new() {
+func VerifC15_new_rate() { c15New(3) }
+
+func c15New(kind int) {
 	n := vParam("n", 2)
 	e := &vEnv{n: n, faultAt: -1}
 	vE = e
@@ -42,7 +48,6 @@ func VerifC15_new() {
 			k--
 		}
 	}
-	kind := vChoose("divider", 4)
 	var dv divider.Divider
 	switch kind {
 	case 0: // arbitrary function, may break the sum rule at the constructor call
